@@ -232,6 +232,10 @@ def _bits_name(config):
 
 # --------------------------------------------------------------------------- the executor
 
+class _InjectedFault(Exception):
+  """Raised by the harness's own DpPacketOut listener: a transmit that fails once."""
+
+
 class _Sw(object):
   """The switch under test plus the bookkeeping of what it did."""
 
@@ -251,6 +255,16 @@ class _Sw(object):
       return _orig(reason, info)
     conn._error_handler = spy
     self.xid = 100
+    self.fault_armed = False
+    self.fault_fired = False
+    # the "wire" of the simulated switch: runs before SwitchEnd's recorder, so a failed transmit is not recorded
+    self.end.sw.addListenerByName("DpPacketOut", self._wire, priority=1000)
+
+  def _wire(self, ev):
+    if self.fault_armed:
+      self.fault_armed = False
+      self.fault_fired = True
+      raise _InjectedFault("transmit failed on port %s" % (ev.port.port_no,))
 
   def send(self, data):
     self.end.rx_bytes(data)
@@ -523,13 +537,17 @@ def _run(case, sw, out, nt):
   nports = case["nports"]
   end = sw.end
   ports = end.sw.ports
-  state = {p: [0, 0] for p in range(1, nports + 1)}       # the six judged config bits, link state
-  if sorted(ports) != sorted(state):
+  cfg = {p: 0 for p in range(1, nports + 1)}             # the six judged config bits per port
+  link_down = set()                                      # ports whose link the harness has taken down
+  if sorted(ports) != sorted(cfg):
     raise HarnessError("switch has ports %r" % (sorted(ports),))
   end.take_sent()
 
-  # ---- configuration
-  for pm in case.get("portmods", ()):
+  def port_state_now():
+    return {p: (c, R.OFPPS_LINK_DOWN if (p in link_down or c & R.OFPPC_PORT_DOWN) else 0) for p, c in cfg.items()}
+
+  def apply_portmod(pm):
+    """Send one ofp_port_mod, follow it in the model, check the resulting config words.  False on a violation."""
     p = pm["port"]
     hw = ports[p].hw_addr.toRaw() if p in ports else bytes(6)
     if not pm.get("hw", True):
@@ -540,25 +558,43 @@ def _run(case, sw, out, nt):
       raise
     except Exception as e:
       _exc(out, e, "exception")
-      return
-    if p in state and pm.get("hw", True):
-      state[p][0] = R.port_config_after(state[p][0], [(pm["config"] & KNOWN_BITS, pm["mask"] & KNOWN_BITS)])
+      return False
+    if p in cfg and pm.get("hw", True):
+      cfg[p] = R.port_config_after(cfg[p], [(pm["config"] & KNOWN_BITS, pm["mask"] & KNOWN_BITS)])
       out.label("portmod")
     else:
       out.label("portmod-rejected")
-  for p in range(1, nports + 1):
-    got = ports[p].config & KNOWN_BITS
-    if got != state[p][0]:
-      _vkey(out, "port-mod", "port %d config is %s after the port-mods, expected %s" % (p, _bits_name(got), _bits_name(state[p][0])),
-            bit=_bits_name(got ^ state[p][0]))
+    for q in sorted(cfg):
+      got = ports[q].config & KNOWN_BITS
+      if got != cfg[q]:
+        _vkey(out, "port-mod", "port %d config is %s after the port-mod, expected %s" % (q, _bits_name(got), _bits_name(cfg[q])),
+              bit=_bits_name(got ^ cfg[q]))
+        return False
+    for q in link_down:
+      ports[q].state |= R.OFPPS_LINK_DOWN      # the cable stays unplugged whatever the port-mod did to the state word
+    end.take_sent()
+    return True
+
+  def apply_link(p, down):
+    """The physical link of port p goes down / comes back (POX has no message for it: the state word is set here)."""
+    if p not in cfg:
       return
-    if state[p][0] & R.OFPPC_PORT_DOWN:
-      state[p][1] |= R.OFPPS_LINK_DOWN        # config.PORT_DOWN implies link down in POX; either way nothing may leave
-  for p in case.get("link_down", ()):
-    if p in state:
+    if down:
+      link_down.add(p)
       ports[p].state |= R.OFPPS_LINK_DOWN
-      state[p][1] |= R.OFPPS_LINK_DOWN
       out.label("link-down")
+    else:
+      link_down.discard(p)
+      if not (cfg[p] & R.OFPPC_PORT_DOWN):
+        ports[p].state &= ~R.OFPPS_LINK_DOWN
+      out.label("link-up")
+
+  # ---- configuration
+  for pm in case.get("portmods", ()):
+    if not apply_portmod(pm):
+      return
+  for p in case.get("link_down", ()):
+    apply_link(p, True)
   frag_mode = case.get("frag", 0)
   miss_send_len = 128
   if frag_mode:
@@ -569,15 +605,29 @@ def _run(case, sw, out, nt):
       return
     out.label("frag-mode-%d" % frag_mode)
   end.take_sent()
-  port_state = {p: (c, s) for p, (c, s) in state.items()}
+  port_state = port_state_now()
 
-  rx_lo = {p: [0, 0] for p in state}
-  rx_hi = {p: [0, 0] for p in state}
-  tx = {p: [0, 0] for p in state}
+  rx_lo = {p: [0, 0] for p in cfg}
+  rx_hi = {p: [0, 0] for p in cfg}
+  tx = {p: [0, 0] for p in cfg}
   flow = None
 
   for si, step in enumerate(case["steps"]):
     mode = step["mode"]
+    # ---- steps that are not deliveries
+    if mode == "portmod":
+      if not apply_portmod(step):
+        return
+      out.label("portmod-between-deliveries")
+      continue
+    if mode == "link":
+      apply_link(step["port"], step["down"])
+      continue
+    if mode == "fault":
+      sw.fault_armed = True                 # the next emission, whenever it comes, fails once
+      out.label("fault-armed")
+      continue
+    port_state = port_state_now()
     frame = step["frame"]
     in_port = step["in_port"]
     actions = step.get("actions") or []
@@ -629,9 +679,21 @@ def _run(case, sw, out, nt):
         end.rx_frame(frame, in_port)
     except HarnessError:
       raise
+    except _InjectedFault:
+      pass
     except Exception as e:
       _exc(out, e, "exception")
       return
+    if sw.fault_fired:
+      # A transmit failed in the middle of this delivery: what it did is not judged.  From here on the switch
+      # must behave as one that never had the failure; the counters are taken as they stand now.
+      sw.fault_fired = False
+      out.label("fault-fired")
+      nt[0] = True
+      end.take_emitted()
+      if not _check_stats(out, sw, port_state, tx, rx_lo, rx_hi, "-", rebase=True):
+        return
+      continue
     emitted = end.take_emitted()
     msgs = split_messages(end.take_sent())
     pktins = []
@@ -798,8 +860,9 @@ def _run(case, sw, out, nt):
     out.label("stats-nonzero")
 
 
-def _check_stats(out, sw, port_state, tx, rx_lo, rx_hi, fclass, single=None):
-  """Ask for port statistics (all ports, or one) and compare with what was really emitted / accepted."""
+def _check_stats(out, sw, port_state, tx, rx_lo, rx_hi, fclass, single=None, rebase=False):
+  """Ask for port statistics (all ports, or one) and compare with what was really emitted / accepted.
+  rebase=True: do not compare, adopt the reported counters as the new baseline."""
   end = sw.end
   end.take_sent()
   try:
@@ -820,6 +883,11 @@ def _check_stats(out, sw, port_state, tx, rx_lo, rx_hi, fclass, single=None):
   ok = True
   for p in want:
     rxp, txp, rxb, txb = replies[0][p]
+    if rebase:
+      tx[p][:] = [txp, txb]
+      rx_lo[p][:] = [rxp, rxb]
+      rx_hi[p][:] = [rxp, rxb]
+      continue
     bad = None
     if txp != tx[p][0]:
       bad = ("tx_packets", "port %d (%s): tx_packets %d but %d frame(s) were emitted" % (p, _bits_name(port_state[p][0]), txp, tx[p][0]))
